@@ -121,6 +121,12 @@ def generate(seed, tier, idx=0):
         case["sched"] = {"kind": rng.choice(["site", "site", "pct"]), "seed": seed,
                          "p": rng.choice([0.05, 0.02]), "q": rng.choice([0.5, 0.3]),
                          "d": rng.choice([1, 2, 3]), "step_cost_us": rng.choice([0, 1, 10])}
+        if rng.random() < 0.6:
+            # fault 'eager poller': the caller sees the published state a few
+            # lines after publication while the run thread is descheduled
+            case["sched"]["eager"] = [rng.choice([0.5, 0.01]), rng.choice([0, 1, 2, 3, 4, 6, 8, 10, 12, 15, 20, 25, 30, 40, 60])]
+            if rng.random() < 0.5:
+                case["sched"]["kind"] = "S0"
     elif prior == "refused":
         guard = 0
         while ref.run_state != "ENDED" and guard < 6 and ref.can_start():
